@@ -129,6 +129,109 @@ fn root_selection(a: &[f64]) {
     println!("{}", json!({"points": pts}));
 }
 
+/// State getters natively (PR propane/butane with k_ij): (a) each derivative getter vs a central finite difference of the
+/// next-lower-order getter on FRESH states (C01), (b) Total vs IdealGas + Residual (C10), (c) each getter evaluated
+/// after each other getter on the same state vs on a fresh state (C11 histories of length 2)
+fn getter_checks(_a: &[f64]) {
+    use feos_core::parameter::{Identifier, Parameter, PureRecord};
+    use feos_core::cubic::PengRobinsonRecord;
+    use ndarray::Array2;
+    let recs = vec![
+        PureRecord::new(Identifier::default(), 44.0, PengRobinsonRecord::new(369.8, 41.9e5, 0.15)),
+        PureRecord::new(Identifier::default(), 58.0, PengRobinsonRecord::new(425.2, 37.9e5, 0.2)),
+    ];
+    let kij = Array2::from_shape_fn([2, 2], |(i, j)| if i == j { 0.0 } else { 0.03 });
+    let pr = Arc::new(PengRobinson::new(Arc::new(PengRobinsonParameters::from_records(recs, Some(kij)).unwrap())));
+    let (t0, v0, n0) = (300.0, 2.0e3, [3.0, 2.0]);
+    let mk = |t: f64, v: f64, n: [f64; 2]| State::new_nvt(&pr, Temperature::from_reduced(t), Volume::from_reduced(v), &Moles::from_reduced(arr1(&n))).unwrap();
+    let r = Contributions::Residual;
+    // scalar views of the getters (reduced units)
+    type G = Box<dyn Fn(&State<PengRobinson>) -> f64>;
+    let getters: Vec<(&str, G)> = vec![
+        ("residual_helmholtz_energy", Box::new(|s| s.residual_helmholtz_energy().to_reduced())),
+        ("pressure", Box::new(move |s| s.pressure(r).to_reduced())),
+        ("residual_entropy", Box::new(|s| s.residual_entropy().to_reduced())),
+        ("residual_chemical_potential[0]", Box::new(|s| s.residual_chemical_potential().to_reduced()[0])),
+        ("residual_chemical_potential[1]", Box::new(|s| s.residual_chemical_potential().to_reduced()[1])),
+        ("dp_dv", Box::new(move |s| s.dp_dv(r).to_reduced())),
+        ("dp_dt", Box::new(move |s| s.dp_dt(r).to_reduced())),
+        ("dp_dni[0]", Box::new(move |s| s.dp_dni(r).to_reduced()[0])),
+        ("dp_dni[1]", Box::new(move |s| s.dp_dni(r).to_reduced()[1])),
+        ("dmu_dni[0,1]", Box::new(move |s| s.dmu_dni(r).to_reduced()[[0, 1]])),
+        ("dmu_dni[1,0]", Box::new(move |s| s.dmu_dni(r).to_reduced()[[1, 0]])),
+        ("dmu_dni[1,1]", Box::new(move |s| s.dmu_dni(r).to_reduced()[[1, 1]])),
+        ("dmu_res_dt[0]", Box::new(|s| s.dmu_res_dt().to_reduced()[0])),
+        ("ds_res_dt", Box::new(|s| s.ds_res_dt().to_reduced())),
+        ("d2s_res_dt2", Box::new(|s| s.d2s_res_dt2().to_reduced())),
+        ("d2p_dv2", Box::new(move |s| s.d2p_dv2(r).to_reduced())),
+    ];
+    // (a) finite differences on fresh states: getter = sign * d(lower)/d(direction)
+    let h = 1e-5;
+    let fd = |f: &dyn Fn(&State<PengRobinson>) -> f64, dir: usize| -> f64 {
+        let (mut tp, mut vp, mut np) = (t0, v0, n0);
+        let (mut tm, mut vm, mut nm) = (t0, v0, n0);
+        let x0;
+        match dir {
+            0 => { x0 = t0; tp *= 1.0 + h; tm *= 1.0 - h; }
+            1 => { x0 = v0; vp *= 1.0 + h; vm *= 1.0 - h; }
+            k => { x0 = n0[k - 2]; np[k - 2] *= 1.0 + h; nm[k - 2] *= 1.0 - h; }
+        }
+        (f(&mk(tp, vp, np)) - f(&mk(tm, vm, nm))) / (2.0 * h * x0)
+    };
+    let get = |name: &str| -> &G { &getters.iter().find(|g| g.0 == name).unwrap().1 };
+    // (getter, sign, lower getter, direction)
+    let rules: Vec<(&str, f64, &str, usize)> = vec![
+        ("pressure", -1.0, "residual_helmholtz_energy", 1), ("residual_entropy", -1.0, "residual_helmholtz_energy", 0),
+        ("residual_chemical_potential[0]", 1.0, "residual_helmholtz_energy", 2), ("residual_chemical_potential[1]", 1.0, "residual_helmholtz_energy", 3),
+        ("dp_dv", 1.0, "pressure", 1), ("dp_dt", 1.0, "pressure", 0), ("dp_dni[0]", 1.0, "pressure", 2), ("dp_dni[1]", 1.0, "pressure", 3),
+        ("dmu_dni[0,1]", 1.0, "residual_chemical_potential[0]", 3), ("dmu_dni[1,0]", 1.0, "residual_chemical_potential[1]", 2),
+        ("dmu_dni[1,1]", 1.0, "residual_chemical_potential[1]", 3), ("dmu_res_dt[0]", 1.0, "residual_chemical_potential[0]", 0),
+        ("ds_res_dt", 1.0, "residual_entropy", 0), ("d2s_res_dt2", 1.0, "ds_res_dt", 0), ("d2p_dv2", 1.0, "dp_dv", 1),
+    ];
+    let mut fd_bad = vec![];
+    for (g, sg, low, dir) in &rules {
+        let an = get(g)(&mk(t0, v0, n0));
+        let num = sg * fd(get(low).as_ref(), *dir);
+        let dev = (an - num).abs() / an.abs().max(num.abs()).max(1e-300);
+        if dev > 1e-5 {
+            fd_bad.push(json!({"getter": g, "analytic": an, "finite_difference": num, "rel_dev": dev}));
+        }
+    }
+    // (b) selector
+    let s = mk(t0, v0, n0);
+    let mut sel_bad = vec![];
+    let chk = |name: &str, tot: f64, ig: f64, res: f64, bad: &mut Vec<serde_json::Value>| {
+        if (tot - (ig + res)).abs() > 1e-12 * tot.abs().max(1e-300) {
+            bad.push(json!({"getter": name, "total": tot, "ideal": ig, "residual": res}));
+        }
+    };
+    let (c_t, c_i, c_r) = (Contributions::Total, Contributions::IdealGas, Contributions::Residual);
+    chk("pressure", s.pressure(c_t).to_reduced(), s.pressure(c_i).to_reduced(), s.pressure(c_r).to_reduced(), &mut sel_bad);
+    chk("dp_dv", s.dp_dv(c_t).to_reduced(), s.dp_dv(c_i).to_reduced(), s.dp_dv(c_r).to_reduced(), &mut sel_bad);
+    chk("dp_dt", s.dp_dt(c_t).to_reduced(), s.dp_dt(c_i).to_reduced(), s.dp_dt(c_r).to_reduced(), &mut sel_bad);
+    chk("d2p_dv2", s.d2p_dv2(c_t).to_reduced(), s.d2p_dv2(c_i).to_reduced(), s.d2p_dv2(c_r).to_reduced(), &mut sel_bad);
+    chk("dp_dni[0]", s.dp_dni(c_t).to_reduced()[0], s.dp_dni(c_i).to_reduced()[0], s.dp_dni(c_r).to_reduced()[0], &mut sel_bad);
+    chk("dmu_dni[1,1]", s.dmu_dni(c_t).to_reduced()[[1, 1]], s.dmu_dni(c_i).to_reduced()[[1, 1]], s.dmu_dni(c_r).to_reduced()[[1, 1]], &mut sel_bad);
+    // (c) histories of length 2 (same state, and a clone taken after the first call)
+    let mut hist_bad = vec![];
+    for (hn, hf) in &getters {
+        for (gn, gf) in &getters {
+            let fresh = gf(&mk(t0, v0, n0));
+            let s = mk(t0, v0, n0);
+            let _ = hf(&s);
+            let c = s.clone();
+            let after = gf(&s);
+            let on_clone = gf(&c);
+            // the real part of a dual-number evaluation may differ from the plain f64 evaluation in the last bits
+            let differs = |x: f64| (x - fresh).abs() > 1e-10 * fresh.abs().max(1e-300);
+            if differs(after) || differs(on_clone) {
+                hist_bad.push(json!({"first": hn, "then": gn, "fresh": fresh, "after": after, "on_clone": on_clone}));
+            }
+        }
+    }
+    println!("{}", json!({"fd_mismatches": fd_bad, "selector_mismatches": sel_bad, "history_mismatches": hist_bad, "getters": getters.len()}));
+}
+
 fn main() {
     let args: Vec<String> = std::env::args().collect();
     let nums: Vec<f64> = args[2..].iter().map(|x| x.parse().unwrap()).collect();
@@ -137,6 +240,7 @@ fn main() {
         "density_scan" => density_scan(&nums),
         "loss" => loss(&nums),
         "root_selection" => root_selection(&nums),
+        "getter_checks" => getter_checks(&nums),
         "axis_volume" => axis_volume(&nums),
         o => panic!("unknown replay {o}"),
     }
